@@ -29,3 +29,19 @@ Theorem C15_interpolation_identity_bounded N d : (0 < N <= 4) -> (0 < d <= 5) ->
   Gamma_identity Qc_fieldType N d = true.
 Proof. exact: Gamma_identity_bounded. Qed.
 Print Assumptions C15_interpolation_identity_bounded.
+
+(* ---- the UNBOUNDED identity: every number of variables N >= 1, every degree d >= 1, every field of characteristic 0: the gamma loop
+   terminates within its fuel for all multi-indices and  sum_j Gamma[i,j] * ray_j^a = delta(i,a).  Proved from the finite differences
+   of monomials, the generalized (multi-index) Vandermonde convolution, simplex interpolation of monomials through Stirling numbers,
+   and an odometer argument for the loop (InterpAlg.v, InterpLoop.v, InterpFull.v). *)
+From AlgoV Require Import InterpFull QcField.
+Import GRing.Theory.
+Theorem C15_interpolation_identity (K : fieldType) : ([char K]%R =i pred0) ->
+  forall N d : nat, (0 < N)%N -> (0 < d)%N -> Gamma_identity K N d = true.
+Proof. move=> ch N d; exact: Gamma_identity_all. Qed.
+Print Assumptions C15_interpolation_identity.
+(* in particular for the rationals the correspondence check computes with *)
+Theorem C15_interpolation_identity_Qc (N d : nat) : (0 < N)%N -> (0 < d)%N -> Gamma_identity Qc_fieldType N d = true.
+Proof. exact: Gamma_identity_Qc. Qed.
+Print Assumptions C15_interpolation_identity_Qc.
+
